@@ -20,7 +20,7 @@ import (
 
 // rpcSpec describes one RPC of a history.
 type rpcSpec struct {
-	Kind    string // "U" unary | "S" streaming
+	Kind    string // "U" unary | "S" streaming | "R" streaming, the client receives with RawRecv and keeps the returned bytes
 	End     string // U: "ok" | "cancel" ; S: "close" | "cancel" | "drain" | "closecancel" (ends by itself just as its context is cancelled)
 	Handler string // "echo" | "send2" | "err" | "early" | "recv2"
 }
@@ -165,7 +165,18 @@ func runRPC(env *wl.Env, i int, sp rpcSpec) {
 	} else if sp.Handler != "recv2" {
 		for k := 0; k < 3; k++ {
 			var in []byte
-			if err := stream.MsgRecv(&in, enc.Bytes{}); err != nil {
+			var err error
+			if rr, ok := stream.(interface{ RawRecv() ([]byte, error) }); ok && sp.Kind == "R" {
+				in, err = rr.RawRecv()
+				if err == nil {
+					// the caller owns what RawRecv returns: it is looked at again when the whole history is over
+					kept, _ := env.Facts["kept"].([]keptReply)
+					env.Facts["kept"] = append(kept, keptReply{i, in})
+				}
+			} else {
+				err = stream.MsgRecv(&in, enc.Bytes{})
+			}
+			if err != nil {
 				checkErr(env, i, err)
 				if k == 0 {
 					fail("MsgRecv", err)
@@ -213,6 +224,12 @@ func runRPC(env *wl.Env, i int, sp rpcSpec) {
 	}
 }
 
+// keptReply is a reply obtained through RawRecv that its RPC kept.
+type keptReply struct {
+	rpc  int
+	data []byte
+}
+
 func history(cfg wl.Config, specs []rpcSpec) *mc.Scenario {
 	var names []string
 	for _, s := range specs {
@@ -234,6 +251,13 @@ func history(cfg wl.Config, specs []rpcSpec) *mc.Scenario {
 		}
 		if pend, _ := env.Facts["pending"].([]string); len(pend) > 0 && !env.ConnClosed() {
 			env.Failf("%s", pend[0])
+		}
+		// replies kept from RawRecv still are what their RPC received, whatever came after
+		kept, _ := env.Facts["kept"].([]keptReply)
+		for _, k := range kept {
+			if t, d, _, verr := enc.Verify(k.data); verr != nil || t != tagOf(k.rpc) || d != 1 {
+				env.Failf("CROSSTALK: a reply r%d obtained through RawRecv and kept by the caller reads differently after later traffic on the connection (tag %c dir %d, verify: %v)", k.rpc, t, d, verr)
+			}
 		}
 		env.Teardown()
 	}
@@ -313,6 +337,12 @@ func basePlans(tier string) []mc.Plan {
 		}
 	}
 	ps = append(ps, mc.Plan{Scen: slowMarshal(tiny), Bounds: []int{0, 1}})
+	// bytes returned by RawRecv belong to the caller, also after the next RPC's packets have arrived
+	for _, cfg := range []wl.Config{{Soft: true, Pipe: tr.Options{Cap: -1}}, tiny} {
+		for _, second := range []rpcSpec{{"U", "ok", "echo"}, {"R", "drain", "send2"}} {
+			ps = append(ps, mc.Plan{Scen: history(cfg, []rpcSpec{{"R", "drain", "send2"}, second}), Bounds: []int{0, 1}})
+		}
+	}
 	// a goroutine that keeps sending on an RPC that has already been cancelled must not disturb the next
 	// RPC's (multi-frame) messages
 	for _, v := range []rpcSpec{{"S", "drain", "echo"}} {
